@@ -37,8 +37,9 @@
      tryUpdateLastIrreversibleHeight reads the values from BEFORE the block
      (in particular "height - DPOSStartHeight >= 6" reads the old
      DPOSStartHeight even when the resume closure is queued in front of it);
-     the undo closures restore DPOSStartHeight, and LastIrreversibleHeight only
-     in the initialisation branch (C21's finding; kept as written).
+     the undo closures restore both DPOSStartHeight and LastIrreversibleHeight
+     (since the repair ac1a41f0 of C21's finding; before it the advancing
+     branch left LastIrreversibleHeight untouched).
 
    Not modelled: the side-chain block cache lookup at the head of
    reorganizeChain (every non-main indexed node is cached while the process
@@ -68,8 +69,9 @@ Record params := mkParams {
 (* Irreversibility state                                               *)
 
 Inductive undo :=
-| UInit (ol od : Z)   (* restores LastIrreversibleHeight and DPOSStartHeight *)
-| UKeep (od : Z).     (* restores DPOSStartHeight only *)
+| UInit (ol od : Z)   (* initialisation branch: restores LIH (= 0) and DPOSStartHeight *)
+| UKeep (ol od : Z).  (* resume / advancing branches: restore both as well
+                         (repair ac1a41f0; before it only DPOSStartHeight) *)
 
 Record irr := mkIrr {
   lih : Z;                     (* State.LastIrreversibleHeight *)
@@ -89,9 +91,9 @@ Definition try_update (p : params) (h : Z) (dpos resume : bool) (s : irr) : irr 
   else if dpos then
     let d1 := if resume then h else dstart s in
     if IRR <=? u32 (h - dstart s) then
-      mkIrr (u32 (d1 + 1)) (u32 (d1 + 1)) ((h, UKeep (dstart s)) :: hist s)
+      mkIrr (u32 (d1 + 1)) (u32 (d1 + 1)) ((h, UKeep (lih s) (dstart s)) :: hist s)
     else if resume then
-      mkIrr (lih s) h ((h, UKeep (dstart s)) :: hist s)
+      mkIrr (lih s) h ((h, UKeep (lih s) (dstart s)) :: hist s)
     else s
   else s.
 
@@ -102,7 +104,7 @@ Fixpoint irr_rollback_aux (h l d : Z) (hs : list (Z * undo)) : irr :=
       if h <? hh then
         match u with
         | UInit ol od => irr_rollback_aux h ol od rest
-        | UKeep od => irr_rollback_aux h l od rest
+        | UKeep ol od => irr_rollback_aux h ol od rest
         end
       else mkIrr l d hs
   | [] => mkIrr l d []
